@@ -48,6 +48,19 @@ func (p *StreamPool) VerifConns() []VerifConnState {
 	return out
 }
 
+// VerifRegistered reports whether s is the stream of a connection currently registered in the pool
+// (a stream that lost a creation race, or whose connection was removed, is not).
+func (p *StreamPool) VerifRegistered(s Stream) bool {
+	p.mu.RLock()
+	defer p.mu.RUnlock()
+	for _, c := range p.conns {
+		if c.stream == s {
+			return true
+		}
+	}
+	return false
+}
+
 // VerifYield, when set, is called at the points where an assembler is about to take a pool or
 // connection lock it does not hold (never inside a critical section).  A conformance harness uses
 // it to park the goroutine and replay a chosen interleaving; it must be set before any assembler runs.
